@@ -82,6 +82,7 @@ macro_rules! iter_h {
 }
 // storage framing: from "nothing detected" and from "storage detected"
 iter_h!(c01_it_st_m0_g0_t2, 22, true, 0, 0, 2, 30);
+iter_h!(c01_it_st_m0_g1_t2, 23, true, 0, 1, 2, 30);
 iter_h!(c01_it_st_m1_g0_t2, 22, true, 1, 0, 2, 30);
 iter_h!(c01_it_st_m1_g1_t2, 23, true, 1, 1, 2, 30);
 iter_h!(c01_it_st_m1_g2_t3, 25, true, 1, 2, 3, 30);
